@@ -326,6 +326,7 @@ func c11(c *an.Check) {
 			"(*crypto.Ed25519PrivateKey).GetPublic: bounds k.k[ed25519.PrivateKeySize - ed25519.PublicKeySize:]": "k.k always holds 64 bytes: the WHO obligation above restricts writers of k to GenerateEd25519Key (std keygen), UnmarshalEd25519PrivateKey (length-switched, decided above) and KeyPairFromStdKey (typed std keys)",
 		}})
 	}
+	thoroughCallers(c, "key decoding", 0, []string{"crypto", "keypem", "util/confparse", "peer"}, an.R("crypto", "", "UnmarshalPublicKey"), an.R("crypto", "", "UnmarshalPrivateKey"), an.R("keypem", "", "ParsePubKeyPem"))
 	c.Trust("crypto/ed25519 key generation returns 64-byte private keys", "encoding/pem, base58 and protobuf-go-lite decoders never panic", "typed ed25519.PrivateKey values handed to KeyPairFromStdKey have 64 bytes (caller contract of crypto/ed25519)")
 }
 
